@@ -470,6 +470,19 @@ func (m *machine) branch(c *term, what string) bool {
 	return take
 }
 
+// chooseSym is an n-way choice made by the solver: a fresh symbolic variable
+// constrained to [0,n) is case-split, so the choice is part of the model of
+// the path (used for scheduling decisions: the schedule is a vector of solver
+// variables).
+func (m *machine) chooseSym(n int, what string) int {
+	if n <= 1 {
+		return 0
+	}
+	t := m.freshSym(what, 8)
+	m.assume(m.tb.cmp(opUlt, t, m.tb.constBV(uint64(n), 8)))
+	return int(m.concretizeTerm(t, what))
+}
+
 // choose is an n-way fork without constraints.
 func (m *machine) choose(n int, what string) int {
 	if n <= 1 {
